@@ -68,7 +68,7 @@ fn main() {
                     Ok(Err(e)) => { rep.fail("schedule_refused", format!("valid schedule refused: {e}"), c.clone()); continue; }
                     Err(pm) => { rep.fail("schedule_panic", format!("Schedule::new panicked: {pm}"), c.clone()); continue; }
                 };
-                let mut check = |rep: &mut Report, view: u64, want: usize, origin: &str| {
+                let check = |rep: &mut Report, view: u64, want: usize, origin: &str| {
                     rep.evaluations += 1;
                     if pi == 0 { rep.distinct += 1; }
                     let case = json!({"sched": c["sched"], "perm": p, "mode": "rr", "freq": freq, "view": view.to_string(), "want": want, "origin": origin});
